@@ -55,7 +55,7 @@ theorem open_R (mode : Mode) (ps : Nat) (src : Bytes) (hps : 0 < ps) (P : Nat) (
       · refine ⟨rfl, rfl, rfl, ⟨(fun h => by cases h), (fun h => ?_)⟩⟩
         rcases h with h | h | h <;> cases h
   obtain ⟨f1, f2, f3, f4⟩ := hfacts
-  refine ⟨w, g, ?_, fun _ => f1, hsrc, hcur, Nat.zero_le _, by rw [f2]; exact hP, f4, fun _ => f3, ?_, ?_, rfl, ?_⟩
+  refine ⟨w, g, ?_, fun _ => f1, hsrc, hcur, by rw [f2]; exact hP, f4, fun _ => f3, ?_, ?_, rfl, ?_⟩
   · intro x hx; rw [f1] at hx; cases hx
   · intro _
     refine ⟨?_, fun hh => absurd rfl hh⟩
